@@ -1,7 +1,7 @@
 CHECKS = [
     entry("C03", "collector",
           technique="property-based testing (rapid): generated arrival/tick schedules under virtual time (testing/synctest) vs a reference deadline/tick model",
-          quick=dict(checks=350, budget_s=50),
+          quick=dict(checks=500, budget_s=70),
           thorough=dict(checks=8000, shards=16, budget_s=540),
           level_text="Generated arrival times aimed at deadline/tick ties with generated timing settings; the observed decision instants and send reasons are validated against a reference model of deadlines and the per-tick cap. Exploration of schedules and configurations.",
           level_note="Virtual time via testing/synctest; keep-all sampler so every decision is visible at the recording transmission; worker ownership read through a verif-tagged accessor."),
